@@ -280,3 +280,113 @@ func ZZSessionClose(variant int) {
 	}
 	vReach("end")
 }
+
+// ZZSessionRearm (C14): sessions are replicated state. A node whose DB holds n sessions (one with an
+// ephemeral record) becomes leader: every stored session — and nothing else — is re-armed on the new
+// leader (it can be kept alive and closed), a session that was never created is unknown, and closing a
+// re-armed session removes exactly its records. Timers do not fire in this harness (no heartbeat is
+// missed), so nothing may expire.
+func ZZSessionRearm(n int) {
+	w := zzNewWal("l")
+	m := &zzKV{}
+	d, _ := kv.NewDB("zz", 1, &zzFactory{kv: m}, 0, nil)
+	md := &proto.SessionMetadata{TimeoutMs: 5000, Identity: "c"}
+	mb, _ := md.MarshalVT()
+	setup := &proto.WriteRequest{}
+	for i := 1; i <= n; i++ {
+		setup.Puts = append(setup.Puts, &proto.PutRequest{Key: SessionKey(SessionId(i)), Value: mb})
+	}
+	s1 := int64(1)
+	setup.Puts = append(setup.Puts, &proto.PutRequest{Key: "e", Value: []byte("v"), SessionId: &s1}, &proto.PutRequest{Key: "plain", Value: []byte("v")})
+	lev := &proto.LogEntryValue{Value: &proto.LogEntryValue_Requests{Requests: &proto.WriteRequests{Writes: []*proto.WriteRequest{setup}}}}
+	b, _ := lev.MarshalVT()
+	_ = w.AppendAsync(&proto.LogEntry{Term: 2, Offset: 0, Value: b, Timestamp: 100})
+	w.lastSynced = w.lastAppended
+	_, err := d.ProcessWrite(setup, 0, 100, WrapperUpdateOperationCallback)
+	vAssert("setup", err == nil)
+	lc := zzLeaderOver(w, m, 3, &zzRpc{})
+	_, err = lc.BecomeLeader(context.Background(), &proto.BecomeLeaderRequest{Term: 3, ReplicationFactor: 1})
+	vAssert("became-leader", err == nil)
+	sm := lc.sessionManager.(*sessionManager)
+	vAssert("exactly-the-stored-sessions-are-rearmed", sm.sessions.Size() == n)
+	for i := 1; i <= n; i++ {
+		vAssert("stored-session-rearmed", lc.KeepAlive(int64(i)) == nil)
+	}
+	vAssert("unknown-session-not-invented", lc.KeepAlive(int64(n+1)) != nil)
+	_, cerr := lc.CloseSession(&proto.CloseSessionRequest{Shard: 1, SessionId: 1})
+	vAssert("rearmed-session-can-be-closed", cerr == nil)
+	vAssert("its-record-is-removed", !zzHas(m, "e") && !zzHas(m, SessionKey(1)) && !zzHas(m, ShadowKey(1, "e")))
+	vAssert("others-untouched", zzHas(m, "plain") && (n < 2 || zzHas(m, SessionKey(2))))
+	vReach("end")
+}
+
+func zzFullEntry(kind int) *proto.WriteRequest {
+	s1 := int64(1)
+	switch kind {
+	case 0:
+		return &proto.WriteRequest{Puts: []*proto.PutRequest{{Key: SessionKey(1), Value: []byte("m")}}}
+	case 1:
+		return &proto.WriteRequest{Puts: []*proto.PutRequest{{Key: "e", Value: []byte("v"), SessionId: &s1, SecondaryIndexes: []*proto.SecondaryIndex{{IndexName: "i1", SecondaryKey: "x"}}}}}
+	case 2:
+		return &proto.WriteRequest{Puts: []*proto.PutRequest{{Key: "e", Value: []byte("w")}}}
+	case 3:
+		return &proto.WriteRequest{Deletes: []*proto.DeleteRequest{{Key: "e"}}}
+	case 4:
+		return &proto.WriteRequest{DeleteRanges: []*proto.DeleteRangeRequest{{StartInclusive: "a", EndExclusive: "f"}}}
+	default:
+		return &proto.WriteRequest{Puts: []*proto.PutRequest{{Key: "b/c", Value: []byte("v"), SessionId: &s1, SecondaryIndexes: []*proto.SecondaryIndex{{IndexName: "i1", SecondaryKey: "y"}}}}}
+	}
+}
+
+// ZZReplayFull (C06/C07): like the kv-level replay-equivalence harness, but through the real wrapper
+// callback (sessions + secondary indexes): replica A applies a 3-entry log live; replica B is flushed
+// after `flushed` entries, crashes after `crashAt`, reopens through the real NewDB and replays from its
+// commit offset + 1. All keys (records, shadows, index entries, notifications, counters) and the
+// records' metadata must be identical.
+func ZZReplayFull(e0, e1, e2, flushed, crashAt int) {
+	kinds := []int{e0, e1, e2}
+	ma, mb := &zzKV{}, &zzKV{}
+	da, _ := kv.NewDB("zz", 1, &zzFactory{kv: ma}, 0, nil)
+	dbb, _ := kv.NewDB("zz", 1, &zzFactory{kv: mb}, 0, nil)
+	for i, k := range kinds {
+		_, err := da.ProcessWrite(zzFullEntry(k), int64(i), uint64(100+i), WrapperUpdateOperationCallback)
+		vAssert("live-apply-ok", err == nil)
+	}
+	for i := 0; i < crashAt; i++ {
+		_, err := dbb.ProcessWrite(zzFullEntry(kinds[i]), int64(i), uint64(100+i), WrapperUpdateOperationCallback)
+		vAssert("apply-ok", err == nil)
+		if i+1 == flushed {
+			_ = mb.Flush()
+		}
+	}
+	if flushed == 0 {
+		mb.durable = nil
+	}
+	mb.zzCrash()
+	dbb, _ = kv.NewDB("zz", 1, &zzFactory{kv: mb}, 0, nil)
+	c, err := dbb.ReadCommitOffset()
+	vAssert("commit-offset-is-last-durable-entry", err == nil && c == int64(flushed)-1)
+	for i := int(c) + 1; i < 3; i++ {
+		_, err := dbb.ProcessWrite(zzFullEntry(kinds[i]), int64(i), uint64(100+i), WrapperUpdateOperationCallback)
+		vAssert("replay-apply-ok", err == nil)
+	}
+	vAssert("same-number-of-keys", len(ma.ents) == len(mb.ents))
+	if len(ma.ents) != len(mb.ents) {
+		return
+	}
+	for i := range ma.ents {
+		vAssert("same-keys", ma.ents[i].k == mb.ents[i].k)
+		k := ma.ents[i].k
+		if k == "e" || k == "b/c" || k == SessionKey(1) {
+			ea, eb := zzEntryOf(ma, k), zzEntryOf(mb, k)
+			vAssert("same-version", ea.VersionId == eb.VersionId && ea.ModificationsCount == eb.ModificationsCount)
+			vAssert("same-timestamps", ea.CreationTimestamp == eb.CreationTimestamp && ea.ModificationTimestamp == eb.ModificationTimestamp)
+			vAssert("same-owner", (ea.SessionId == nil) == (eb.SessionId == nil))
+			vAssert("same-index-declarations", len(ea.SecondaryIndexes) == len(eb.SecondaryIndexes))
+		}
+	}
+	ca, _ := da.ReadCommitOffset()
+	cb, _ := dbb.ReadCommitOffset()
+	vAssert("same-commit-offset", ca == cb)
+	vReach("end")
+}
